@@ -97,6 +97,11 @@ impl StateMachine<'_> {
 
         if self.source == Source::DiffUnified {
             self.state = State::DiffHeader(DiffType::Unified);
+            if self.line.starts_with("--- ") {
+                // A new file starts here (there need not be a `diff` line): it gets its own
+                // header, also when it compares the same two files as the previous one.
+                self.handled_diff_header_header_line_file_pair = None;
+            }
             self.painter
                 .set_syntax(get_filename_from_marker_line(&self.line));
         } else {
